@@ -64,6 +64,10 @@ func FuncNameAndResult(fn, result string) Option {
 			if result == "*" {
 				return true
 			}
+			//a method of that name which takes parameters cannot be asked for its result: the component is no candidate
+			if method.Type().NumIn() != 0 {
+				return false
+			}
 			results := method.Call(nil)
 			if len(results) < 1 {
 				return result == ""
